@@ -11,7 +11,8 @@ and fed to the real receiver and to the model: delivered (cmd, payload, seqno) l
 run must agree.
 Oracle (model-independent): recorded REAL-cipher streams per suite; every single-byte flip / deletion / insertion
 position of the first two packets (sampled positions beyond), swaps, drops, replays, multi-edits; a fresh receiver keyed
-like the sender reads until it fails: what it delivered must be a prefix of what was sent.  Long streams (more than 2^16
+like the sender reads until it fails: what it delivered must be a prefix of what was sent.  Packets whose MAC input crosses 32 KiB / 64 KiB: the MAC on the wire
+against an independent HMAC over seqno || whole packet, and bit flips in their tail.  Long streams (more than 2^16
 packets under one key set) with whole packets replayed / dropped / swapped at distance exactly 256 and 65536.
 """
 from pv import lib_packet as L
@@ -206,6 +207,58 @@ def run_toy(ctx, Packetizer, Message, n_streams, exhaustive_streams):
             ctx.dist("toy:%s:%s" % (what[0], stop))
             if what[0] == "untouched" and got != sent:
                 ctx.dist("toy:untouched-stream-not-delivered")
+    # packets around the 32 KiB / 64 KiB marks (the MAC must cover the WHOLE packet whatever its size): the sender's
+    # wire bytes and the reads of tail-tampered copies, line by line against the model
+    nbig = 4 if ctx.thorough else 2
+    for bi in range(nbig):
+        kind = ("etm", "classic")[bi % 2]
+        c = {"kind": kind, "block": 16, "maclen": rng.choice([20, 32]), "sdctr": bool(bi & 2), "k": rng.randrange(256), "pos": 0,
+             "mkey": rng.randbytes(20), "iv": rng.randbytes(12)}
+        tok = cfg_tok(c)
+        pair.cfgs = {tok: c}
+        seq = rng.randrange(1 << 32)
+        big = rng.choice([32768 - 9, 32768, 32768 + 5, 33000, 65536 + 3]) if bi < 2 else rng.choice([32768 * 2 - 8, 40000, 66000])
+        payloads = [rng.randbytes(5), bytes([94]) + rng.randbytes(big - 1), rng.randbytes(9)]
+        ti = len(trials)
+        trials.append({"kind": "sender-big", "edit": ("sender", big), "sent": [], "got": [], "stop": None, "cfg": tok,
+                       "stream": "", "edited": ""})
+        stream, bounds, sent = b"", [0], []
+        ok = True
+        for i, rq in enumerate(["reset", "cfgout " + tok, "seqout %d" % seq, "kexout 1"] +
+                               ["send %s %s" % (hx(x), hx(rng.randbytes(4))) for x in payloads]):
+            out = pair.do(rq)
+            lines.append(rq)
+            impl.append(out)
+            trial_of.append(ti)
+            if rq.startswith("send "):
+                if out.startswith("err:"):
+                    ok = False
+                    break
+                stream += bytes.fromhex(out)
+                bounds.append(len(stream))
+        if not ok:
+            continue
+        sent = [(x[0], x[1:], (seq + i) % (1 << 32)) for i, x in enumerate(payloads)]
+        a, b = bounds[1], bounds[2]  # the big packet
+        spots = [b - c["maclen"] - 1 - d for d in (0, 3, 17, 30)] + [a + 5, a + 20000, b - 1]
+        for pos in spots[: (7 if ctx.thorough else 4)]:
+            edited = stream[:pos] + bytes([stream[pos] ^ 0x01]) + stream[pos + 1:]
+            ti = len(trials)
+            got, stop = [], None
+            for rq in ["reset", "cfgin " + tok, "seqin %d" % seq, "kexin 1", "feed " + hx(edited)] + ["read -"] * 3:
+                out = pair.do(rq)
+                lines.append(rq)
+                impl.append(out)
+                trial_of.append(ti)
+                if rq.startswith("read"):
+                    if out.startswith("err:"):
+                        stop = out[4:]
+                        break
+                    w = out.split(" ")
+                    got.append((int(w[1]), bytes.fromhex(w[2]) if w[2] != "-" else b"", int(w[3])))
+            trials.append({"kind": kind, "edit": ("big-packet-flip", pos - a), "sent": sent, "got": got, "stop": stop,
+                           "cfg": tok, "stream": "big:%d" % big, "edited": "flip@%d" % pos})
+            ctx.dist("toy:big-packet-flip:%s" % stop)
     return lines, impl, trial_of, trials
 
 
@@ -317,6 +370,57 @@ def cross_epoch_oracle(ctx, Packetizer, Message, c, m, c2, m2, comp, salt):
                      "delivered %d messages; message %d (second key epoch) is not the one sent (got %r)" % (len(got), k, got[k][:2]))
         elif stop is None and len(got) < len(sent):
             ctx.fail("no-failure-after-prefix:%s" % mode, dict(case0, edit=list(what)), "receiver neither failed nor waited")
+
+
+def big_packet_oracle(ctx, Packetizer, Message, c, m, salt, sizes):
+    """packets whose MAC input crosses 32 KiB / 64 KiB: (a) the MAC on the wire must equal an independent HMAC over
+    seqno ‖ whole packet (RefReceiver), (b) a flipped bit anywhere in such a packet — the last bytes in front of the
+    padding, the padding, the MAC, the head, sampled positions — must never be delivered"""
+    rng = ctx.rng
+    mode = "gcm" if "gcm" in c else "etm" if "etm" in m else "classic"
+    for big in sizes:
+        sock = L.SinkSock()
+        ps = Packetizer(sock)
+        ps._initial_kex_done = True
+        L.activate_out(ps, c, m, "none", salt=salt)
+        seq = rng.choice([0, 12, 0xFFFFFFFE])
+        L.set_seq(ps, out=seq)
+        payloads = [rng.randbytes(6), bytes([94]) + rng.randbytes(big - 1), rng.randbytes(11)]
+        stream, bounds = b"", [0]
+        for x in payloads:
+            ps.send_message(Message(x))
+            stream += sock.take()
+            bounds.append(len(stream))
+        sent = [(x[0], x[1:], (seq + i) % (1 << 32)) for i, x in enumerate(payloads)]
+        case = {"cipher": c, "mac": m, "compression": "none", "seq0": seq, "salt": salt, "big_payload": big}
+        ref = L.RefReceiver(c, m, salt=salt, seq=seq)
+        rest = stream
+        for i in range(3):
+            try:
+                f, rest = ref.parse_one(rest)
+            except Exception as e:
+                ctx.fail("big-packet:unparsable", dict(case, packet=i), "%s: %s" % (type(e).__name__, e))
+                return
+            if not f["mac_ok"]:
+                ctx.fail("mac-not-over-seq-and-whole-packet:" + mode, dict(case, packet=i, packet_bytes=bounds[i + 1] - bounds[i]),
+                         "the MAC on the wire differs from HMAC(key, seqno || complete packet) for a packet of %d bytes"
+                         % (bounds[i + 1] - bounds[i]))
+                break  # (the tail-tampering below still runs: it shows whether altered data is delivered)
+        a, b = bounds[1], bounds[2]
+        maclen = ref.maclen
+        pos = list(range(b - maclen - 72, b - maclen)) + [b - 1, b - maclen, a, a + 4, a + 5, a + 32767, a + 32768, a + 32776]
+        pos += [rng.randrange(a, b) for _ in range(12)]
+        for p in sorted(set(x for x in pos if a <= x < b)):
+            edited = stream[:p] + bytes([stream[p] ^ (1 << rng.randrange(8))]) + stream[p + 1:]
+            got, stop = replay_real(Packetizer, rng, c, m, "none", salt, seq, edited, 4)
+            ctx.case((c, m, "big-flip", big, p - a), True)
+            if not is_prefix(got, sent):
+                k = next(i for i, g in enumerate(got) if i >= len(sent) or g != sent[i])
+                ctx.fail("accepted-altered:%s:big-packet-flip" % mode, dict(case, edit=["flip", p - a, "of", b - a]),
+                         "bit flip at byte %d of a %d-byte packet: delivered %d messages, message %d differs from what was sent"
+                         % (p - a, b - a, len(got), k))
+                return
+        ctx.dist("oracle-big:%s:%d" % (mode, big))
 
 
 def long_stream_oracle(ctx, Packetizer, Message, c, m, salt, dists):
@@ -456,6 +560,13 @@ def run(ctx):
         if si < 2:
             ctx.sample({"oracle-stream": {"cipher": c, "mac": m, "compression": comp, "packets": len(sent),
                                           "bytes": len(stream), "edits": len(eds)}})
+    # ------------------------------------------------------------------ oracle: packets around 32 KiB / 64 KiB
+    for ri, (c, m) in enumerate(suites if ctx.thorough else reps):
+        sizes = [32768, rng.choice([32768 - 30, 32768 - 9, 32768 + 7, 33000])] + ([65536 + 5, 70000] if ri % 4 == 0 or ctx.thorough else [])
+        try:
+            big_packet_oracle(ctx, Packetizer, Message, c, m, 9500 + ri, sizes)
+        except Exception as e:
+            ctx.fail("big-packet:" + exc_site(e), {"cipher": c, "mac": m}, repr(e))
     # ------------------------------------------------------------------ oracle: edits across a rekey (strict seq reset)
     for ri, (c, m) in enumerate(suites if ctx.thorough else reps):
         others = [(c, m)] + ([rng.choice([x for x in suites if ("etm" in x[1]) == ("etm" in m)])] if ri % 3 == 0 else [])
